@@ -39,7 +39,6 @@ REVIEWED = {
         "lengths of strings built just before; fill_width is bounded by MAX_FORMAT_NUMBER at parse time",
     "minijinja::formatting::FormatSpec::apply_zero_padding|alloc:repeat":
         "fill_width <= width, and widths are limited to MAX_FORMAT_NUMBER by parse_number (P6)",
-    "minijinja::value::ops::get_offset_and_len|Overflow:Add": "end as i64 + negative start/stop: opposite signs cannot overflow",
     "minijinja::value::ops::range_step_backwards|Overflow:Add":
         "end as i64 + negative bound (opposite signs); start + step <= len + 2^63 in usize",
     "minijinja::value::ops::range_step_backwards|Overflow:Sub": "saturating_sub(..) + step - 1 with step >= 1",
